@@ -268,9 +268,35 @@ MODS = [("", "a"), ("", "a"), ("nocase", "ai"), ("wide", "w"), ("ascii wide", "a
         ("nocase wide", "wi"), ("ascii wide nocase fullword", "awif"), ("ascii", "a"), ("ascii wide fullword", "awf"), ("nocase fullword", "aif")]
 
 
+def gen_atom_run(r):
+    """`x.abc.y`: a run of 6-12 characters and dots whose best 4-token atom window lies inside the run and begins with
+    a dot (atoms.c trims the leading wildcard; the atom's bytes and its code position must stay in step)"""
+    def low():
+        u = r.random()
+        if u < 0.5: return ("ch", r.choice([0x20, 0x00, 0xFF, 0x20]))
+        if u < 0.8: return ("dot",)
+        return ("ch", r.choice(LETTERS))
+    left = [("ch", r.choice([0x78, 0x20, 0x61, 0x2D]))] + [low() for _ in range(r.choice([0, 0, 1, 2]))]
+    core = [("ch", c) for c in r.sample([0x61, 0x62, 0x63, 0x31, 0x5F, 0x7A, 0x41, 0xE9, 0x2D], r.choice([2, 3, 3, 3]))]
+    after = [("dot",)] if r.random() < 0.75 else [low()]
+    right = [low() for _ in range(r.choice([0, 1, 1, 2]))] + [("ch", r.choice([0x79, 0x20, 0x62, 0x39]))]
+    run = left + [("dot",)] * r.choice([1, 1, 1, 2]) + core + after + right
+    while len(run) < 6:
+        run.insert(len(left), low())
+    return run[:12]
+
+
 def gen_regex(r):
     """loops over zero-width assertions hang the engine (listed finding C03-zero-width-loop-hang, kept in the corpus):
     the random stream avoids them, every hang would cost a timeout"""
+    if r.random() < 0.10:
+        run = gen_atom_run(r)
+        u = r.random()
+        if u < 0.2:
+            return [[("rep", ("ch", r.choice(LETTERS)), "*", 0, None)] + run], True
+        if u < 0.35:
+            return [run, [("ch", r.choice(LETTERS)), ("ch", r.choice(LETTERS))]], True
+        return [run], True
     while True:
         greedy = r.random() < 0.6
         g = G(r, greedy)
@@ -453,6 +479,8 @@ CORPUS = [
     ("/^(a{,2}?){4,4}?/", "", "a", b"Aaaaaaa", "C(^,Rl4,4(Rl0,2(l61)))"),
     ("/(a{0})+b/", "", "a", b"ab", "C(+g(Rg0,0(l61)),l62)"), ("/x(a?b)+c/", "", "a", b"xabbc xbabc"),
     ("/[0-0]/", "wide fullword", "wf", b"a\x000\x00"), ("/[0-0]/", "wide fullword", "wf", b"a0\x00"), ("/[0-0]x*/", "wide fullword", "wf", b"0\x00a\x00"),
+    ("/x.abc.y/", "", "a", b"--x1abc2y--abc"), ("/x(aa|a){4,6}y/", "", "a", b"xaaaay xaaay"), ("/x[a-f\\W]y/", "", "a", b"xay x-y xgy"),
+    ("/x[\\Wa-f]y/", "", "a", b"xay x-y xgy"), ("/x[^\\da-c]y/", "", "a", b"xay x1y xdy"),
     ("/[^a-c]x/i", "", "ai", b"Ax dx Dx"), ("/a.c/s", "wide", "ws", b"a\0\n\0c\0a\0b\0c\0"), ("/(a*)*b/", "", "a", b"aaab"), ("/(a|)*b/", "", "a", b"aab"),
 ]
 
